@@ -605,6 +605,14 @@ pub fn generate(prop: &str, thorough: bool, seed: u64, part: (usize, usize), em:
         let run = emit(em, &c, &s);
         if prop == "C04" { emit_strict(em, &run, &mut seen); }
     }
+    // C04: a transport that accepts only part of each write: every PDU still reaches the wire complete, so that the
+    // length fields describe what was emitted (TPKT and X.224 layers, caps of 1, 3, 7 bytes and irregular ones)
+    if prop == "C04" && part.0 == 0 {
+        for len in &[0usize, 1, 7, 20, 300] { for w in &["1,1,1,1,1,1,1,1,1,1,1,1,1,1,1,1,1,1,1,1,1,1,1,1,1,1,1,1,1,1,1,1,1,1,1,1,1,1,1,1", "7,7,7,7,7,7,7,7,7,7,7,7,7,7,7,7,7,7,7,7,7,7,7,7,7,7,7,7,7,7,7,7,7,7,7,7,7,7,7,7,7,7,7,7,7,7,7,7", "3,1,4,1,5,9,2,6,5,3,5,8,9,7,9,3,2,3,8,4,6,2,6,4,3,3,8,3,2,7,9,5,200,200", "4,1000"] {
+            crate::props::c14::emit(em, "tpkt_write", &format!("pat:{}:1", len), w);
+            crate::props::c14::emit(em, "x224_write", &format!("pat:{}:2", len), w);
+        } }
+    }
     // C04: tokens of a second exchange on a used Ntlm object whose first server made the opposite UNICODE
     // choice: names and credentials are encoded as the flags of *this* exchange say
     if prop == "C04" && part.0 == 0 {
